@@ -155,7 +155,7 @@ RESERVED = {"task_uuid", "task_level", "timestamp", "action_type", "action_statu
             "exception", "reason", "nid", "result", "self", "logger", "_serializers", "traceback",
             "__eliot_logger__", "__eliot_serializer__", "message"}
 
-MSG_STYLES = ["log_message", "action.log", "Message.log", "Message.new.write", "MessageType.log", "MessageType.call.write"]
+MSG_STYLES = ["log_message", "action.log", "Message.log", "Message.new.write", "Message.bind.write", "MessageType.log", "MessageType.call.write"]
 ACT_STYLES = ["with", "ctx_finish", "run_finish", "log_call", "ActionType", "as_task", "start_task"]
 GEN_STYLES = ["gen_with", "gen_context"]  # action entered inside a plain generator that is then closed / thrown into
 TYPE_NAMES = ["app:a", "app:b", "app:c", "svc:request", "svc:db", "x"]
